@@ -55,6 +55,8 @@ pub const SOUP: &[&str] = &[
     "assign-inline", "lambda", "&", "&rest", "@", "if", "list", "qq", "unquote", "q", "a", "c", "f", "r", "i", "l", "x", "+", "-", "*", "/", "=", ">", ">s", "sha256",
     "concat", "com", "opt", "quote", "\"", "'", "\"s\"", "'t'", "0x", "0x00", "0xff", "-1", "0", "1", "99999999999999999999999", "X", "Y", "foo", "#a", "#(", ";c\n", "\\",
     "bin", "hex", "sexp", "macros", "1 . 2", "()", "(())", "(q . 1)", "(mod (X) X)", "(defun f (X) X)", "(include *standard-cl-23*)",
+    // special forms with no operands at all
+    "(com)", "(opt)", "(a)", "(i)", "(qq)", "(unquote)", "(lambda)", "(let)", "(let*)", "(assign)", "(if)", "(list)", "(defconst K (com))", "(defconstant K (qq))", "(mod () (com))", "(defun f () (com))",
 ];
 
 pub fn nesting(text: &str) -> usize {
